@@ -96,8 +96,10 @@ def search(ctx):
     for (seed, prob, kw, d, t, fault) in metas:
         for sig, what in oracle(t, d, kw):
             ctx.fail(sig, what, {"seed": seed, "config": ss.describe(d), "fault": fault})
-    # the all-non-finite case, always exercised (recorded finding)
     dfols = core.import_dfols()
+    for sig, what, rpl in planted_runs(ctx, dfols):
+        ctx.fail(sig, what, rpl)
+    # the all-non-finite case, always exercised (recorded finding)
     import trace as tr
     for kind in ("nan", "inf"):
         val = float(kind)
@@ -109,9 +111,69 @@ def search(ctx):
         ctx.seen(("fixed", kind))
 
 
+def planted_runs(ctx, dfols, only=None):
+    """hard restarts whose LATER run meets a zero residual while it is still evaluating its initial directions: a probe run finds
+    the evaluation numbers at which later runs start, then the same (deterministic) run is repeated with the residual vanishing at
+    one of the first evaluations of such a run.  'Objective is sufficiently small' must then come with that objective (seeded
+    change C10_9 kept the previous run's result)."""
+    import trace as tr
+    import problems
+    stats = {"probes": 0, "restarted": 0, "planted": 0, "small_exits": 0}
+    out = []
+    for i in range(ctx.scale(10, 60)):
+        if only is not None and i != only[0]:
+            continue
+        seed = [ctx.seed, 1011, i]
+        rng = np.random.default_rng(seed)
+        prob = problems.rand_problem(rng)
+        rb = 0.1 * max(float(np.max(np.abs(prob["x0"]))), 1.0)
+        kw = dict(maxfun=int(rng.integers(80, 200)), rhobeg=rb, rhoend=rb * 10.0 ** (-rng.uniform(1.0, 2.0)),
+                  user_params={"restarts.use_restarts": True, "restarts.use_soft_restarts": False,
+                               "restarts.hard.use_old_rk": bool(rng.random() < 0.7)})
+        d = {"user_params": dict(kw["user_params"]), "restarts": "hard", "maxfun": kw["maxfun"], "planted": True}
+        t0 = tr.traced_solve(dfols, prob["f"], prob["x0"], alarm=20, **kw)
+        stats["probes"] += 1
+        if t0.exception is not None or t0.result is None:
+            continue
+        starts = [e[2] for e in t0.events if e[0] == "rst"][1:]       # nf at the start of runs 2, 3, ...
+        if not starts:
+            continue
+        stats["restarted"] += 1
+        for nf0 in starts[:2]:
+            for off in (1, 2):
+                k = int(nf0) + off
+                if only is not None and k != only[1]:
+                    continue
+                if k > len(t0.calls):
+                    continue
+                f = problems.faulty(prob["f"], k, "zero")
+                t = tr.traced_solve(dfols, f, prob["x0"], alarm=20, **kw)
+                stats["planted"] += 1
+                ctx.seen(("c10planted", i, k))
+                if t.exception is not None or t.result is None:
+                    continue
+                if tr.msg_class(str(t.result.msg)) == "small":
+                    stats["small_exits"] += 1
+                d2 = dict(d)
+                d2["planted_at"] = k
+                for sig, what in oracle(t, d2, kw):
+                    out.append((sig, what, {"planted": [ctx.seed, 1011, i, k], "config": ss.describe(d2)}))
+    ctx.cov["planted_solution_in_a_restarted_run"] = stats
+    return out
+
+
 def replay(payload):
     dfols = core.import_dfols()
     rp = payload.get("replay", {})
+    if "planted" in rp:
+        class _C:
+            seed = rp["planted"][0]
+            cov = {}
+            def scale(self, a, b): return rp["planted"][2] + 1
+            def seen(self, *a): pass
+        res = planted_runs(_C(), dfols, only=(rp["planted"][2], rp["planted"][3]))
+        print("replay:", [(a, b) for a, b, _ in res] if res else "property holds on this input now")
+        return 1 if res else 0
     if "seed" not in rp:
         print("replay: fixed case or broken obligation:", rp or payload.get("broken"))
         return 1
